@@ -54,6 +54,10 @@ mod task;
 
 mod io;
 
+#[cfg(feature = "verif-hooks")]
+#[allow(missing_docs)]
+pub mod verif;
+
 const MAX_COMMIT_CONCURRENCY: usize = 64;
 
 /// A full value stored within the trie.
@@ -309,9 +313,13 @@ impl<T: HashAlgorithm> Nomt<T> {
         // We must take the access guard before instantiating the rollback delta,
         // because it creates a read transaction and any commits or rollbacks will block
         // indefinitely for us to finish.
+        #[cfg(feature = "verif-hooks")]
+        crate::verif::yield_point(1);
         let access_guard = params
             .take_global_guard
             .then(|| RwLock::read_arc(&self.access_lock));
+        #[cfg(feature = "verif-hooks")]
+        crate::verif::yield_point(2);
 
         let store = self.store.clone();
         let rollback_delta = if params.record_rollback_delta {
@@ -356,7 +364,11 @@ impl<T: HashAlgorithm> Nomt<T> {
             return Ok(());
         }
 
+        #[cfg(feature = "verif-hooks")]
+        crate::verif::yield_point(7);
         let _write_guard = self.access_lock.write();
+        #[cfg(feature = "verif-hooks")]
+        crate::verif::yield_point(8);
 
         let Some(rollback) = self.store.rollback() else {
             anyhow::bail!("rollback: not enabled");
@@ -676,7 +688,11 @@ impl FinishedSession {
     /// The changeset may be invalidated if another competing session, overlay, or rollback was
     /// committed.
     pub fn commit<T: HashAlgorithm>(self, nomt: &Nomt<T>) -> Result<(), anyhow::Error> {
+        #[cfg(feature = "verif-hooks")]
+        crate::verif::yield_point(3);
         let _write_guard = self.take_global_guard.then(|| nomt.access_lock.write());
+        #[cfg(feature = "verif-hooks")]
+        crate::verif::yield_point(4);
 
         {
             let mut shared = nomt.shared.lock();
@@ -785,7 +801,11 @@ impl Overlay {
             .collect();
         let rollback_delta = self.rollback_delta().map(|delta| delta.clone());
 
+        #[cfg(feature = "verif-hooks")]
+        crate::verif::yield_point(5);
         let _write_guard = nomt.access_lock.write();
+        #[cfg(feature = "verif-hooks")]
+        crate::verif::yield_point(6);
 
         let marker = self.mark_committed();
 
